@@ -48,6 +48,10 @@ var archCodes = []string{"01", "02", "03", "04", "05", "06", "07", "08", "09", "
 // genForeign draws a well-formed foreign image.
 func (g *Gen) genForeign() *FImg {
 	r := g.r
+	g.partHeavy = r.Chance(1, 4) // a history about partitions on another writer's image: its unused slots hold former primary partitions
+	if g.partHeavy {
+		g.count("history:partition-heavy-foreign")
+	}
 	n := 1 + r.Intn(6)
 	f := &FImg{Magic: []byte("SIF_MAGIC\x00"), Version: []byte("01\x00"), Arch: []byte("00\x00"), WellFormed: true}
 	if r.Chance(1, 2) {
@@ -114,6 +118,10 @@ func (g *Gen) genForeign() *FImg {
 		if len(d.Name) > 128 {
 			d.Name = d.Name[:128]
 		}
+		if r.Chance(1, 2) {
+			// early releases recorded the builder's user and group in the descriptor
+			d.UID, d.GIDow = int64(pick(r, []int{0, 1000, 1000, 501, 65534})), int64(pick(r, []int{0, 100, 1000, 20, 65534}))
+		}
 		switch r.Intn(6) {
 		case 0:
 			d.Link = uint32(1 + r.Intn(n))
@@ -148,20 +156,32 @@ func (g *Gen) genForeign() *FImg {
 	}
 	f.DataSize = cur - f.DataOff + int64(pick(r, []int{0, 0, 0, 100}))
 	f.FLen = cur
+	if nu == 0 && !f.TableBehind && r.Chance(1, 2) {
+		// an image without objects that ends with its last descriptor although the header declares
+		// a larger table region (reserved space that was never written)
+		f.DSize = 585*int64(n) + int64(pick(r, []int{7, 585, 4096}))
+		f.DataOff = f.DOff + f.DSize
+		f.DataSize = 0
+		f.FLen = f.DOff + 585*int64(n)
+		g.count("foreign:declared-table-region-beyond-the-end")
+	}
 	if f.TableBehind {
 		// the descriptor table lies behind the data section (a writer that appends its index)
 		f.DOff = f.DataOff + f.DataSize + int64(pick(r, []int{0, 3, 585, 4096}))
 		f.DSize = 585*int64(n) + int64(pick(r, []int{0, 0, 7}))
 		f.FLen = f.DOff + f.DSize
+		if r.Chance(1, 2) {
+			f.FLen = f.DOff + 585*int64(n) // every descriptor is present; the declared table size runs past the end of the file
+		}
 		g.count("foreign:table-behind-data")
 	}
 	// leftover bytes in unused slots
 	for i, u := range used {
-		if !u && r.Chance(1, 2) {
+		if !u && (r.Chance(1, 2) || g.partHeavy) {
 			f.Descs[i] = FDesc{Used: false, DT: pick(r, dataTypes), ID: uint32(r.Intn(9)), GID: uint32(r.U64()), Link: uint32(r.U64()),
 				Off: int64(r.Intn(100000)), Size: int64(r.Intn(1000)), SizePad: int64(r.Intn(1000)), CT: int64(r.Intn(1 << 30)), MT: int64(r.Intn(1 << 30)),
 				UID: int64(r.Intn(3)), GIDow: int64(r.Intn(3)), Name: r.Bytes(r.Intn(129)), Extra: r.Bytes(r.Intn(385))}
-			if r.Chance(1, 3) {
+			if r.Chance(1, 3) || g.partHeavy {
 				// what a writer that frees a slot by clearing only its in-use flag leaves behind: the
 				// whole descriptor of a former primary system partition
 				ex := make([]byte, 11)
